@@ -276,6 +276,8 @@ def configs(ctx):
             for w in (1, 2, 3):
                 out.append({"alg": alg, "vtype": "real", "pop": 2 + w, "off": 2, "window": w, "seed": seedbase + len(out)})
                 out.append({"alg": alg, "vtype": "binary", "pop": 3, "off": 2, "window": w, "seed": seedbase + len(out)})
+            # restarts forced by max_window_size only; their extra batch is often EMPTY (evaluate_all([]) inside post_step)
+            out.append({"alg": alg, "vtype": "real", "pop": 4, "off": 2, "window": [1, 3, 1, 2], "seed": seedbase + len(out)})
         if alg == "MOEAD":
             out.append({"alg": alg, "vtype": "real", "pop": 3, "off": 3, "extra": {"update_utility": 2}, "seed": seedbase + len(out)})
     return out
@@ -349,7 +351,7 @@ def run(ctx):
     lits, meta = [], []
     dist = {"per_algorithm": {}, "budget_relation": {}, "calls_per_trace": {1: 0, 2: 0, 3: 0}, "steps_total": 0,
             "batches_total": 0, "members_submitted": 0, "members_already_evaluated": 0, "restart_batches": 0,
-            "rejected_inputs": 0, "aborted": 0, "sizes": {}}
+            "rejected_inputs": 0, "aborted": 0, "batches_listing_an_object_twice": 0, "empty_batches": 0, "sizes": {}}
     for cfgd in cfgs:
         try:
             bounds = pilot_boundaries(cfgd)
@@ -375,6 +377,8 @@ def run(ctx):
                 continue
             calls = res["calls"]
             alg = cfgd["alg"]
+            dist["batches_listing_an_object_twice"] += res["dups"]
+            dist["empty_batches"] += sum(1 for c in calls for st in c["steps"] for b in st["batches"] if not b)
             dist["per_algorithm"][alg] = dist["per_algorithm"].get(alg, 0) + 1
             dist["calls_per_trace"][len(calls)] = dist["calls_per_trace"].get(len(calls), 0) + 1
             key = "%s pop=%s off=%s" % (alg, cfgd["pop"], cfgd.get("off"))
